@@ -284,6 +284,9 @@ class Machine:
             from onl.sim import (Resource, PriorityResource, PreemptiveResource, Container, Store, PriorityStore, FilterStore)
             kind = RESKIND[o["s"][0]]
             cap = float("inf") if o["a"] >= INF else o["a"]
+            if o.get("c") == 1 and kind in ("cont", "store", "pstore", "fstore") and o["a"] < INF:
+                # a capacity of a + 1/2: holds exactly as many whole items / integer amounts as capacity a does
+                cap = o["a"] + 0.5
             if kind == "res":
                 r = Resource(env, cap)
             elif kind == "prio":
@@ -698,7 +701,7 @@ def run_generated(g):
     ch = Chooser(m, g)
     if g.get("resources"):
         # resource histories: the top level creates the resources and all processes, then runs step by step
-        plan = [{"k": "mkres", "a": c, "b": i, "c": 0, "s": [kc]} for kc, c, i in g["resources"]]
+        plan = [{"k": "mkres", "a": c, "b": i, "c": 1 if g.get("halfcap") else 0, "s": [kc]} for kc, c, i in g["resources"]]
         plan += [{"k": "spawn", "a": 0, "b": 0, "c": 0, "s": []} for _ in range(g["nproc"])]
         plan += [{"k": "steps", "a": 0, "b": 0, "c": 0, "s": []}]
     else:
